@@ -12,6 +12,7 @@ Nothing here decides the property: TLC does."""
 import concurrent.futures as cf
 import json
 import os
+import re
 
 import core
 from core import Report, ToolError
@@ -49,21 +50,28 @@ def _check_coverage(rep, label):
 
 
 def _mc(rep, tier):
-    jobs = [("MC_Fixpoint quick (2 nodes, BFS)", "MC_Fixpoint.cfg", dict(workers=8, coverage=True)),
-            ("MC_Fixpoint liveness (2 nodes, 2 edges)", "MC_Fixpoint_live.cfg", dict(workers=2))]
+    M = "mc/MC_Fixpoint.tla"
+    jobs = [("MC_Fixpoint quick (2 nodes, BFS)", M, "MC_Fixpoint.cfg", dict(workers=8, coverage=True)),
+            ("MC_Fixpoint liveness (2 nodes, 2 edges)", M, "MC_Fixpoint_live.cfg", dict(workers=2))]
     if tier == "thorough":
-        jobs = [("MC_Fixpoint quick (2 nodes, BFS)", "MC_Fixpoint.cfg", dict(workers=4, coverage=True)),
-                ("MC_Fixpoint liveness (2 nodes, 3 edges)", "MC_Fixpoint_live3.cfg", dict(workers=2)),
-                ("MC_Fixpoint liveness (3 nodes, cyclic graphs)", "MC_Fixpoint_cyc3.cfg", dict(workers=3)),
-                ("MC_Fixpoint thorough (2 nodes, 4 edges, BFS)", "MC_Fixpoint_t2.cfg", dict(workers=3)),
-                ("MC_Fixpoint thorough (3 nodes, BFS)", "MC_Fixpoint_t3.cfg", dict(workers=4)),
-                ("MC_Fixpoint simulation (4 nodes, 5 edges)", "MC_Fixpoint_sim4.cfg",
-                 dict(workers=2, extra=["-simulate", "num=30000", "-depth", "100", "-seed", str(rep.seed)]))]
+        jobs = [("MC_Fixpoint quick (2 nodes, BFS)", M, "MC_Fixpoint.cfg", dict(workers=3, coverage=True)),
+                ("MC_Fixpoint liveness (2 nodes, 3 edges)", M, "MC_Fixpoint_live3.cfg", dict(workers=2)),
+                ("MC_Fixpoint liveness (3 nodes, cyclic graphs)", M, "MC_Fixpoint_cyc3.cfg", dict(workers=3)),
+                ("MC_Fixpoint thorough (2 nodes, 4 edges, BFS)", M, "MC_Fixpoint_t2.cfg", dict(workers=3)),
+                ("MC_Fixpoint thorough (3 nodes, BFS)", M, "MC_Fixpoint_t3.cfg", dict(workers=4)),
+                ("MC_FixpointSim simulation (4 nodes, 5 edges)", "mc/MC_FixpointSim.tla", "MC_FixpointSim.cfg",
+                 dict(workers=2, extra=["-simulate", "num=20000", "-depth", "100", "-seed", str(rep.seed)]))]
     with cf.ThreadPoolExecutor(max_workers=len(jobs)) as ex:
-        futs = [ex.submit(core.mc, rep, "mc/MC_Fixpoint.tla", cfg, label=label, timeout=3000,
-                          env={"_JAVA_OPTIONS": "-XX:ParallelGCThreads=4"}, **kw) for label, cfg, kw in jobs]
-        for f in futs:
-            f.result()
+        futs = [ex.submit(core.mc, rep, mod, cfg, label=label, timeout=3000,
+                          env={"_JAVA_OPTIONS": "-XX:ParallelGCThreads=4"}, **kw) for label, mod, cfg, kw in jobs]
+        res = [f.result() for f in futs]
+    for (label, _, _, _), r in zip(jobs, res):
+        m = re.search(r"Progress: (\d+) states checked, (\d+) traces generated", r.out)
+        if m:   # simulation mode reports its counts differently
+            run = [x for x in rep.cov["mc_runs"] if x["instance"] == label][-1]
+            run["simulated_states"], run["simulated_behaviours"] = int(m.group(1)), int(m.group(2))
+            rep.states += int(m.group(1))
+            rep.transitions += int(m.group(1))
     _check_coverage(rep, jobs[0][0])
 
 
@@ -124,7 +132,7 @@ def trace_part(rep, seed, tier, dump):
     """(T) both directions: random problems, and the problems TLC exported, on the real solver."""
     meta = core.gen("C07", seed, tier, shards=8)
     os.environ["C07_CONFIGS"] = dump
-    os.environ["C07_MC_SAMPLE"] = "1500" if tier == "quick" else "40000"
+    os.environ["C07_MC_SAMPLE"] = "1500" if tier == "quick" else "15000"
     meta_mc = core.gen("C07", seed, tier, shards=8, sub="mc")
     results = core.validate_traces(rep, TRACE_SPEC, meta["files"] + meta_mc["files"], parallel=8, timeout=3000)
     _outside(results)
